@@ -178,6 +178,8 @@ func checkC04(w *World, r *Report) {
 	r.Rule("R04.6", "Connect never rewrites the configured scheme: a reconnect of a +tls upstream is a TLS connect again", 5)
 	ruleSchemeImmutable(w, r, "R04.6")
 	r.Rule("R04.7", "the user's require-security option reaches every Upstream.Connect unchanged", 2)
+	r.Rule("R04.13", "a certificate manager never answers (nil, nil): an endpoint configured for TLS cannot be handed 'no configuration' without an error", 2)
+	c04TlsConfigNeverNilOnSuccess(w, r, "R04.13")
 	r.Rule("R04.12", "header lists are split without leaving optional white space on the elements (the StartTLS capability is matched with ==)", 1)
 	ruleHeaderListElementsTrimmed(w, r, "R04.12")
 	r.Rule("R04.11", "the client takes every StartTLS offer made on a carrier that is not secure (no local reason turns it down and goes on in clear text)", 1)
